@@ -1145,3 +1145,41 @@ Proof.
   intros h serve url f H. destruct (download_completed _ _ _ _ H) as [Hd [_ [_ [_ [Hin _]]]]].
   destruct (file_provenance h f Hin) as [H1 H2]. split; [exact H1|exact (H2 Hd)].
 Qed.
+
+(* ---- the whole download request: gate and store slice together ---- *)
+Lemma serve_request_served : forall s r serve url o f,
+  serve_request s r serve url = (o, Some f) ->
+  o = Reply 200 EServed /\ s_meth r = MGet /\ first_some (s_keys r) = Some KValid /\
+  (exists u, auth_of (s_creds r) (s_sid r) = AuthUid u /\ u <> 0%N) /\
+  download s serve url = Some f /\
+  f_done f = true /\ In f (files s) /\ get_id_from_url serve url = f_id f /\ In (f_id f) (disk s).
+Proof.
+  intros s r serve url o f H. unfold serve_request in H.
+  remember (download s serve url) as d eqn:Ed.
+  set (r' := {| s_meth := s_meth r; s_keys := s_keys r; s_creds := s_creds r; s_sid := s_sid r;
+                s_handler := s_handler r; s_hdr := s_hdr r;
+                s_found := match d with Some _ => true | None => false end |}) in *.
+  injection H as Ho Hf.
+  destruct (effect_of (serve_gate r')) eqn:Ee; try discriminate.
+  assert (Hw : effect_of (serve_gate r') <> ENone) by (rewrite Ee; discriminate).
+  destruct (serve_gate_work r' Hw) as [Hm [Hk [Ha [_ [_ [_ Hg]]]]]].
+  split; [rewrite <- Ho; exact Hg|]. split; [exact Hm|]. split; [exact (key_check_source _ Hk)|]. split; [exact Ha|].
+  split; [exact Hf|]. rewrite Ed in Hf.
+  destruct (download_completed s serve url f Hf) as [H1 [_ [H3 [_ [H5 H6]]]]].
+  repeat split; assumption.
+Qed.
+
+Lemma serve_request_nothing : forall s r serve url o,
+  serve_request s r serve url = (o, None) -> effect_of o = ENone.
+Proof.
+  intros s r serve url o H. unfold serve_request in H.
+  remember (download s serve url) as d eqn:Ed.
+  set (r' := {| s_meth := s_meth r; s_keys := s_keys r; s_creds := s_creds r; s_sid := s_sid r;
+                s_handler := s_handler r; s_hdr := s_hdr r;
+                s_found := match d with Some _ => true | None => false end |}) in *.
+  injection H as Ho Hf. rewrite <- Ho.
+  destruct (effect_eq_none (effect_of (serve_gate r'))) as [He|He]; [exact He|]. exfalso.
+  destruct (serve_gate_work r' He) as [_ [_ [_ [_ [_ [Hfound Hg]]]]]].
+  rewrite Hg in Hf. cbn [effect_of] in Hf. subst r'. cbn [s_found] in Hfound.
+  destruct d; discriminate.
+Qed.
